@@ -15,18 +15,25 @@ import (
 )
 
 // Engine F (DESIGN.md §2.3): a time-boxed native fuzz campaign (go test -fuzz, all cores) on one rich
-// schema — the repository's own test.proto — with the inner property of C06 as oracle. The byte input is
+// schema — the repository's own test.proto — with the inner property of the checked property (C06 first of all) as oracle. The byte input is
 // rapid's bit stream (rapid.MakeFuzz), so generators and oracle are those of the rapid search. The campaign
 // cannot be pinned to VERIF_SEED; its expiry is never a verdict; a crasher is only reported after it has been
 // re-run deterministically from the saved input, and that input travels in the replay file.
 
-func fuzzTime() time.Duration {
+// FuzzProps: the properties whose thorough tier ends with a native fuzz campaign. All of them are run-time properties
+// whose inner search draws values, objects or call sequences for one compiled schema.
+var FuzzProps = map[string]bool{"C04": true, "C05": true, "C06": true, "C08": true, "C09": true}
+
+func fuzzTime(prop string) time.Duration {
 	if s := os.Getenv("VERIF_FUZZTIME"); s != "" {
 		if d, err := time.ParseDuration(s); err == nil {
 			return d
 		}
 	}
-	return 180 * time.Second
+	if prop == "C06" {
+		return 180 * time.Second
+	}
+	return 90 * time.Second
 }
 
 func verifRoot() string {
@@ -71,7 +78,7 @@ func runFuzzInput(tools *pipeline.Tools, r *Recorder, rp *Replay, prop string) (
 	return strings.TrimSpace(strings.Split(string(msg), "\n")[0]), nil
 }
 
-// FuzzCampaign is run by the driver after the rapid shards of a thorough C06 run.
+// FuzzCampaign is run by the driver after the rapid shards of a thorough run of a property in FuzzProps.
 func FuzzCampaign(tools *pipeline.Tools, r *Recorder, prop string) (string, *Replay, error) {
 	b, err := os.ReadFile(filepath.Join(verifRoot(), "replays", prop, "fixture-test-proto.json"))
 	if err != nil {
@@ -100,13 +107,13 @@ func FuzzCampaign(tools *pipeline.Tools, r *Recorder, prop string) (string, *Rep
 		return "", nil, nil
 	}
 	out := filepath.Join(c.Dir, "fuzz-violations.txt")
-	fr, err := tools.FuzzCase(c, filepath.Join(c.Dir, "spec.json"), out, fuzzTime(), false)
+	fr, err := tools.FuzzCase(c, filepath.Join(c.Dir, "spec.json"), out, fuzzTime(prop), false)
 	if err != nil {
 		return "", nil, err
 	}
 	r.ClassN("fuzz_execs", fr.Execs)
 	r.Class("fuzz_campaigns")
-	r.Sample(map[string]interface{}{"engine": "native go test -fuzz through rapid.MakeFuzz", "schema": "test/test.proto (fixture)", "fuzztime": fuzzTime().String(), "execs": fr.Execs,
+	r.Sample(map[string]interface{}{"engine": "native go test -fuzz through rapid.MakeFuzz", "schema": "test/test.proto (fixture)", "fuzztime": fuzzTime(prop).String(), "execs": fr.Execs,
 		"last_line": lastLines(fr.Output, 1)})
 	if !fr.Failed || len(fr.Crashers) == 0 {
 		return "", nil, nil
